@@ -61,6 +61,9 @@ FAULTS = [
     ("undefined-in-nlist", ".nlist UNDEF5", "UNDEF5", "undefined-symbol"),
     ("undefined-in-list", ".list UNDEF6", "UNDEF6", "undefined-symbol"),
     ("undefined-in-output-name", "make_raw \"rel\" <NOVER + 60> \".raw\"", "NOVER", "undefined-symbol"),
+    # definitions nothing refers to: they are resolved at the very end ("in case some have not been used")
+    ("undefined-in-unused-definition", "spare8 = UNDEF8 + 2", "UNDEF8", "undefined-symbol"),
+    ("division-by-zero-in-unused-definition", "spare9 = later9 / 0\nlater9 = 4", "later9 / 0", "arithmetic-error"),
     # the culprit is the whole displacement of an index operand, written as an unbracketed infix expression
     ("index-sum-too-large", "mov 177777+177777+5(r2), r0", "177777+177777+5", "value-out-of-bounds"),
     ("index-deferred-sum-too-large", "mov @177777+177777+5(r1), r0", "177777+177777+5", "value-out-of-bounds"),
@@ -127,7 +130,7 @@ def build_file(rng, fault, tag):
     return text, off
 
 
-NOT_IN_BLOCK = {"duplicate-label", "reserved-name", "extern-local", "second-link", "empty-assignment", "odd-word", "include-missing", "insert-missing",
+NOT_IN_BLOCK = {"undefined-in-unused-definition", "division-by-zero-in-unused-definition", "duplicate-label", "reserved-name", "extern-local", "second-link", "empty-assignment", "odd-word", "include-missing", "insert-missing",
                 "unterminated-string", "lonely-quote", "comma-after-name"}
 
 
